@@ -2,6 +2,8 @@ package props
 
 import (
 	"fmt"
+	smomentum "github.com/cinar/indicator/v2/strategy/momentum"
+	strend "github.com/cinar/indicator/v2/strategy/trend"
 	"math"
 	"strings"
 	"time"
@@ -474,7 +476,7 @@ func c07(ctx *run.Ctx) {
 				for i := range closes {
 					closes[i] *= unit
 				}
-				pct := cc.R.PickF(0.01, 0.05, 0.2)
+				pct := cc.R.PickF(0.01, 0.05, 0.2, 0) // 0: a break-even stop
 				// closes that sit EXACTLY on the stop level of an earlier close (as
 				// float64 evaluates purchase x (1 - percentage)), one ulp above and below
 				if strings.Contains(sh.name, "stoploss") {
@@ -523,6 +525,27 @@ func c07(ctx *run.Ctx) {
 			if !eqActions(got, want) {
 				cc.Viol("", fmt.Sprintf("MacdRsiStrategy(%v,%v) over %d snapshots: got %v, both-standing-recommendations-agree rule over its own sub-strategies gives %v", buyAt, sellAt, n, got, want), nil)
 				return
+			}
+			// the SAME instance with its public sub-strategies replaced afterwards: it
+			// must vote over the ones it holds NOW
+			if rep%2 == 1 {
+				b2, s2 := cc.R.FRange(35, 49), cc.R.FRange(51, 65)
+				s.RsiStrategy = smomentum.NewRsiStrategyWith(b2, s2)
+				s.MacdStrategy = strend.NewMacdStrategyWith(5, 11, 4)
+				got2 := runStrat(s, snaps)
+				m2 := denormalizeModel(runStrat(strend.NewMacdStrategyWith(5, 11, 4), snaps))
+				r2 := denormalizeModel(runStrat(smomentum.NewRsiStrategyWith(b2, s2), snaps))
+				want2 := make([]strategy.Action, min(len(m2), len(r2)))
+				for i := range want2 {
+					if m2[i] == r2[i] {
+						want2[i] = m2[i]
+					}
+				}
+				if !eqActions(got2, want2) {
+					cc.Viol("", fmt.Sprintf("MacdRsiStrategy whose RsiStrategy and MacdStrategy fields were replaced after a first use (RSI %.1f/%.1f, MACD 5/11/4) over %d snapshots: got %v, the rule over the sub-strategies it holds now gives %v", b2, s2, n, got2, want2), nil)
+					return
+				}
+				cc.Count("reused_instance_runs", 1)
 			}
 			cc.Count("runs", 1)
 			cc.Count("actions_compared", int64(len(got)))
